@@ -214,7 +214,7 @@ def run(tier, seed, t0, only=None):
                                   backend=be, timeout=6000,
                                   name=f'{be}:rabin:{shape}:moore={moore}:plus_one={plus_one}'
                                        + ('' if part is None else f':state{part}')))
-    dshapes = ['B11a', 'S11', 'B02'] if tier == 'quick' else ['B11a', 'B11b', 'B11c21', 'B11c12', 'S11', 'B02', 'I11a', 'B21', 'B12']
+    dshapes = ['B11a', 'S11', 'S11h2', 'S11g2', 'B02'] if tier == 'quick' else ['B11a', 'B11b', 'B11c21', 'B11c12', 'S11', 'B02', 'I11a', 'B21', 'B12']
     for shape in dshapes:
         for moore, plus_one in MODES:
             tasks.append(dict(mod='vlib.props.c04', fn='duality', kw=dict(shape=shape, moore=moore, plus_one=plus_one),
